@@ -445,18 +445,26 @@ func (spt *Tracker) ipfsStatusAll(ctx context.Context) (map[cid.Cid]*api.PinInfo
 	ctx, span := trace.StartSpan(ctx, "tracker/stateless/ipfsStatusAll")
 	defer span.End()
 
-	var ipsMap map[string]api.IPFSPinStatus
-	err := spt.rpcClient.CallContext(
-		ctx,
-		"",
-		"IPFSConnector",
-		"PinLs",
-		"recursive",
-		&ipsMap,
-	)
-	if err != nil {
-		logger.Error(err)
-		return nil, err
+	// List both recursive and direct pins: cluster pins in direct mode
+	// are direct pins in IPFS.
+	ipsMap := make(map[string]api.IPFSPinStatus)
+	for _, typeFilter := range []string{"direct", "recursive"} {
+		var typeMap map[string]api.IPFSPinStatus
+		err := spt.rpcClient.CallContext(
+			ctx,
+			"",
+			"IPFSConnector",
+			"PinLs",
+			typeFilter,
+			&typeMap,
+		)
+		if err != nil {
+			logger.Error(err)
+			return nil, err
+		}
+		for k, v := range typeMap {
+			ipsMap[k] = v
+		}
 	}
 	pins := make(map[cid.Cid]*api.PinInfo, len(ipsMap))
 	for cidstr, ips := range ipsMap {
